@@ -29,3 +29,14 @@ pub fn remote_from_raw(
 pub fn remote_raw(r: &RemoteBloomFilter) -> (&BloomFilter, u16, Option<(u16, NtpClientCookie)>, u16, bool) {
     (&r.filter, r.chunk_size, r.last_requested, r.next_to_request, r.is_filled)
 }
+
+// ---- C34 (np_packet_h): name the types from outside the private module.
+pub use super::{BloomFilter, ResponseHandlingError, ServerId};
+pub use crate::packet::v5::NtpClientCookie;
+pub use crate::packet::v5::extension_fields::{ReferenceIdRequest, ReferenceIdResponse};
+
+// ---- C13/C14 (np_nts_h): a fixed ServerId built without any loop (`[T; 10]::map` is a loop and
+// would force a larger global unwind bound on every harness that builds a source).
+pub fn server_id_fixed() -> ServerId {
+    ServerId([U12(1), U12(2), U12(3), U12(4), U12(5), U12(6), U12(7), U12(8), U12(9), U12(10)])
+}
